@@ -229,6 +229,11 @@ def main(argv):
     ap.add_argument("--repo", default=None)
     ap.add_argument("--explain", default=None)
     a = ap.parse_args(argv)
+    global EVID
+    if a.repo and os.path.realpath(a.repo) != os.path.realpath(factsmod.REPO) and not os.environ.get("VERIF_EVIDENCE_DIR"):
+        # a run against a scratch copy (checker validation) must not overwrite the evidence of the repository itself
+        EVID = "/tmp/selftest-evidence"
+        os.makedirs(EVID, exist_ok=True)
     if a.explain:
         print(open(a.explain).read())
         return 0
